@@ -1,8 +1,8 @@
 package parser
 
 import (
+	"go/token"
 	"go/types"
-	"unicode"
 
 	gonanoid "github.com/matoous/go-nanoid"
 	"github.com/reedom/convergen/pkg/logger"
@@ -76,11 +76,6 @@ func (p *Parser) findConvergenEntries() ([]*intfEntry, error) {
 
 // isValidIdentifier checks if the given string is a valid identifier.
 func isValidIdentifier(id string) bool {
-	for i, r := range id {
-		if !unicode.IsLetter(r) &&
-			!(0 < i && unicode.IsDigit(r)) {
-			return false
-		}
-	}
-	return id != ""
+	// A Go identifier that is not a keyword; the blank identifier cannot be referred to.
+	return token.IsIdentifier(id) && id != "_"
 }
